@@ -335,7 +335,12 @@ fn value_range(input: Input<'_>) -> ParserResult<'_, SubtypeElements> {
 fn size_constraint(input: Input<'_>) -> ParserResult<'_, SubtypeElements> {
     opt_delimited(
         skip_ws_and_comments(char(LEFT_PARENTHESIS)),
-        skip_ws_and_comments(into(preceded(tag(SIZE), constraint))),
+        // only a subtype constraint can constrain a size; a general constraint
+        // (`SIZE (CONTAINING ...)`) is a syntax error, not a `SubtypeElements`
+        skip_ws_and_comments(into(preceded(
+            tag(SIZE),
+            skip_ws_and_comments(in_parentheses(map(element_set_specs, Constraint::Subtype))),
+        ))),
         skip_ws_and_comments(char(RIGHT_PARENTHESIS)),
     )
     .parse(input)
